@@ -3,6 +3,7 @@ import PyYetiVerif.Props.C13Text
 import PyYetiVerif.Props.C13Dmig
 import PyYetiVerif.Props.C13Grid
 import PyYetiVerif.Props.C13Cord
+import PyYetiVerif.Props.C13DmigX
 #print axioms PyYetiVerif.C13.thru_roundtrip
 #print axioms PyYetiVerif.C13.thru_maximal
 #print axioms PyYetiVerif.C13.nasints_layout
@@ -42,3 +43,10 @@ import PyYetiVerif.Props.C13Cord
 #print axioms PyYetiVerif.C13.grid_roundtrip
 #print axioms PyYetiVerif.C13.cord2_roundtrip
 #print axioms PyYetiVerif.C13.uset_roundtrip
+#print axioms PyYetiVerif.C13.rddmig_default_is_plain
+#print axioms PyYetiVerif.C13.rddmig_options_same_cells
+#print axioms PyYetiVerif.C13.rddmig_square_index
+#print axioms PyYetiVerif.C13.rddmig_expanded_index
+#print axioms PyYetiVerif.C13.rddmig_expanded_spec
+#print axioms PyYetiVerif.C13.rddmig_square_spec
+#print axioms PyYetiVerif.C13.rddmig_options_on_lines
